@@ -3,7 +3,9 @@
 (* The bounded INPUT SPACE of property C03 and its instantiation.          *)
 (*                                                                         *)
 (* An abstract vector                                                      *)
-(*   [route, caller, a, b, key, ver, src: [b, key, ver]]                   *)
+(*   [route, caller, a, b, key, ver, src: [b, key, ver, enc]]              *)
+(* (enc: the copy-source header spells the same key percent-encoded; the  *)
+(* decision is about the resource named, not about its spelling)           *)
 (* names a route of ApiRoutes, a caller class, the auth state of the       *)
 (* target bucket A and of the other bucket B, and the target (which key,   *)
 (* versionId form, copy source).  Auth states are RELATIVE to the request: *)
@@ -132,7 +134,7 @@ Conc(v) ==
       target |-> [bucket |-> BktA, key |-> KeyOf(v.key), ver |-> (v.ver /\ r.ver),
                   keys |-> IF r.shape = "batch" THEN << KeyOf("K1"), KeyOf("K2") >> ELSE << >>,
                   src |-> [bucket |-> IF v.src.b = "B" THEN BktB ELSE BktA,
-                           key |-> KeyOf(v.src.key), ver |-> v.src.ver]]]
+                           key |-> KeyOf(v.src.key), ver |-> v.src.ver, enc |-> v.src.enc]]]
 
 (***************************************************************************)
 (* Which policy documents the gateway accepts at PUT ?policy (so that a     *)
@@ -163,5 +165,5 @@ InSpace(v) ==
   /\ v.caller \in CallerClasses
   /\ AuthAbsOK(v.a) /\ AuthAbsOK(v.b)
   /\ v.key \in {"K1", "K2"} /\ v.ver \in BOOLEAN
-  /\ v.src.b \in {"A", "B"} /\ v.src.key \in {"K1", "K2"} /\ v.src.ver \in BOOLEAN
+  /\ v.src.b \in {"A", "B"} /\ v.src.key \in {"K1", "K2"} /\ v.src.ver \in BOOLEAN /\ v.src.enc \in BOOLEAN
 =============================================================================
